@@ -60,16 +60,20 @@ Definition norm_sd (sd : sdef) : sdef :=
 
 Definition typed (t : gty) (v : gval) : bool := wellformed (map norm_sd tb) fuel top t v.
 
+(* direct trees: every json.Number text is a JSON number, and numbers sit only where today's decoders keep them *)
+Definition valid_numbers (t : gty) (v : gval) : bool :=
+  negb (kf_nonfinite tb fuel top t v) && negb (kf_any_number tb fuel top t v).
+
 Definition opt_json_eqb (a b : option json) : bool :=
   match a, b with Some x, Some y => json_eqb x y | None, None => true | _, _ => false end.
 
 (* the specification, on the implementation's observations only: the value is serialisable, comes back equal
    (nil vs empty, json.Number vs float64, exact number text, exact bytes), and serialises to the same JSON again.
-   Domain: every evaluation result; every well-formed directly built tree. *)
+   Domain: every evaluation result; every well-formed directly built tree with valid number text. *)
 Definition spec_fail (c : case) : bool :=
   match c with
   | CRound src t orig j1 rt j2 =>
-      (match src with SEval => true | SDirect => typed t orig end)
+      (match src with SEval => true | SDirect => typed t orig && valid_numbers t orig end)
       && negb (match j1, rt with
                | Some _, Some v => gval_eqb false orig v && opt_json_eqb j1 j2
                | _, _ => false
@@ -77,9 +81,14 @@ Definition spec_fail (c : case) : bool :=
   | CRaw _ _ _ _ => false
   end.
 
+(* Only the findings still recorded in known-findings.txt are excused.  The classes kf_nonfinite (invalid
+   json.Number text) and kf_any_number (a number in an `any` decoded without UseNumber) were repaired in esc
+   (load-time diagnostic for non-finite floats; Expr.UnmarshalJSON): an evaluation result inside them is a NEW
+   violation.  Directly built trees with invalid number text or with a number the decoder cannot keep are outside
+   the domain ("valid number text"), see [spec_fail]. *)
 Definition known (c : case) : bool :=
   match c with
-  | CRound _ t orig _ _ _ => in_known_class tb fuel top t orig
+  | CRound _ t orig _ _ _ => kf_empty_omitted tb fuel top t orig || kf_non_utf8 tb fuel top t orig
   | CRaw _ _ _ _ => false
   end.
 
